@@ -66,7 +66,8 @@ type FuncSpec struct {
 	Inline    bool
 	Pos       string
 	LoopMod   map[int][]string // extra havoc names
-	LoopOwned map[int][]string // slice variables whose backing array stays private to the activation
+	LoopOwned map[int][]string
+	LoopGhost map[int][]*LoopGhost // specification-only loop variables
 	Unlocked  bool             // callback must be invoked with no level>=1 lock held
 	Covers    []*Clause
 	Decreases []*Clause
@@ -99,6 +100,15 @@ type GhostHeap struct {
 	Key, Val Sort
 	Mono     string // optional binary predicate: after a havoc, Mono(new(k), old(k)) for all k
 	Internal bool   // not reachable by user code: unaffected by re-entrant callbacks
+}
+
+// LoopGhost: a specification-only variable of a loop (ghost state): INIT at
+// entry, STEP at the end of every iteration; invariants may mention it.
+type LoopGhost struct {
+	Name string
+	Sort Sort
+	Init SE
+	Step SE
 }
 
 type GuardDecl struct{ Struct, Field, MuStruct, Mu string }
@@ -286,6 +296,38 @@ func (db *SpecDB) LoadFile(path string) error {
 				cur.LoopMod[k] = append(cur.LoopMod[k], strings.Fields(strings.ReplaceAll(r3, ",", " "))...)
 			case "owned":
 				cur.LoopOwned[k] = append(cur.LoopOwned[k], strings.Fields(strings.ReplaceAll(r3, ",", " "))...)
+			case "ghost", "ghoststep":
+				// loop K ghost NAME SORT := INIT     a specification-only variable of the loop
+				// loop K ghoststep NAME := EXPR      its new value at the end of every iteration
+				parts := strings.SplitN(r3, ":=", 2)
+				if len(parts) != 2 {
+					return fail(fmt.Errorf("expected `loop K %s NAME ... := EXPR`", sub))
+				}
+				hd := strings.Fields(parts[0])
+				e, err := parseSE(strings.TrimSpace(parts[1]))
+				if err != nil {
+					return fail(err)
+				}
+				if cur.LoopGhost == nil {
+					cur.LoopGhost = map[int][]*LoopGhost{}
+				}
+				if sub == "ghost" {
+					if len(hd) != 2 {
+						return fail(fmt.Errorf("expected `loop K ghost NAME SORT := INIT`"))
+					}
+					cur.LoopGhost[k] = append(cur.LoopGhost[k], &LoopGhost{Name: hd[0], Sort: specSort(hd[1]), Init: e})
+				} else {
+					found := false
+					for _, g := range cur.LoopGhost[k] {
+						if len(hd) == 1 && g.Name == hd[0] {
+							g.Step = e
+							found = true
+						}
+					}
+					if !found {
+						return fail(fmt.Errorf("ghoststep for undeclared loop ghost"))
+					}
+				}
 			default:
 				return fail(fmt.Errorf("unknown loop clause %q", sub))
 			}
@@ -458,6 +500,8 @@ func specSort(s string) Sort {
 		return SIface
 	case "slice", "Slice":
 		return SSlice
+	case "intmap":
+		return ArrSort(SInt, SInt)
 	case "strmap_int":
 		return ArrSort(SStr, SInt)
 	case "strmap_str":
